@@ -187,49 +187,29 @@ def r4(ctx):
 
 
 def _matcher_ok(ctx, am, fn):
-    """Evaluate the matcher's shape: every `return` that can yield True is dominated by isinstance(message, ExtendedMessage)
-    and returns `<sub>.message_id == <console version id>`; all other returns are False."""
-    p = fn.args.args[0].arg if fn.args.args else None
-    rets = [x for x in ast.walk(fn) if isinstance(x, ast.Return)]
-    if not rets:
-        return False, "no return"
-    ifs = [x for x in ast.walk(fn) if isinstance(x, ast.If)]
-    good = 0
-    for r in rets:
-        v = r.value
-        if isinstance(v, ast.Constant) and v.value is False:
-            continue
-        under = [i for i in ifs if any(y is r for s in i.body for y in ast.walk(s))]
-        isinst = any(isinstance(i.test, ast.Call) and dotted(i.test.func) == "isinstance" and len(i.test.args) == 2 and dotted(i.test.args[0]) == p and (ctx.repo.resolve_class(am, i.test.args[1]) is not None and ctx.repo.resolve_class(am, i.test.args[1]).name == "ExtendedMessage") for i in under)
-        if not isinst:
-            return False, f"`{norm_text(r)}` is not guarded by isinstance({p}, ExtendedMessage)"
-        if not (isinstance(v, ast.Compare) and len(v.ops) == 1 and isinstance(v.ops[0], ast.Eq)):
-            return False, f"returns `{unparse(v)}`"
-        l, rr = v.left, v.comparators[0]
-        idv = ctx.repo.try_fold(am, rr)
-        if idv is None:
-            idv = ctx.repo.try_fold(am, l)
-            l = rr
-        if idv != 0xFF30:
-            return False, f"compares with {idv!r} (console version sub-id is 0xFF30)"
-        if not (isinstance(l, ast.Attribute) and l.attr == "message_id"):
-            return False, f"compares `{unparse(l)}`"
-        # the compared object must be message.sub_message (directly or via a local)
-        base = l.value
-        src = None
-        if isinstance(base, ast.Name):
-            for st in ast.walk(fn):
-                if isinstance(st, (ast.Assign, ast.AnnAssign)):
-                    tg = st.targets[0] if isinstance(st, ast.Assign) else st.target
-                    if isinstance(tg, ast.Name) and tg.id == base.id and st.value is not None:
-                        src = dotted(st.value)
-        else:
-            src = dotted(base)
-        if src != f"{p}.sub_message":
-            return False, f"message_id of `{src}` instead of {p}.sub_message"
-        good += 1
-    return good >= 1, f"{good} accepting return(s)"
+    """Truth table of the matcher (evaluated by sa/minieval.py on stand-in messages): True exactly for an ExtendedMessage
+    whose sub-message id is the console-version id 0xFF30; a message of another class must be rejected without touching
+    attributes it does not have."""
+    from ..minieval import FakeObj, Mini, Unsupported
 
+    p = fn.args.args[0].arg if fn.args.args else None
+    if p is None:
+        return False, "matcher takes no message"
+    cases = [
+        ("ExtendedMessage(sub id 0xFF30)", FakeObj("ExtendedMessage", message_id=0x1F, sub_message=FakeObj("ConsoleVersionMessage", message_id=0xFF30)), True),
+        ("ExtendedMessage(sub id 0xFF10)", FakeObj("ExtendedMessage", message_id=0x1F, sub_message=FakeObj("AcErrorInformationMessage", message_id=0xFF10)), False),
+        ("ExtendedMessage(sub id 0xFF11)", FakeObj("ExtendedMessage", message_id=0x1F, sub_message=FakeObj("AcAbilityMessage", message_id=0xFF11)), False),
+        ("a status message with id 0x2D", FakeObj("AcStatusMessage", message_id=0x2D), False),
+        ("a message of another class whose own id is 0xFF30", FakeObj("ConsoleVersionMessage", message_id=0xFF30), False),
+    ]
+    for desc, obj, want in cases:
+        try:
+            got = Mini(ctx.repo, am).function_value(fn, {p: obj})
+        except Unsupported as ex:
+            return False, f"{desc}: the matcher does not reject it cleanly ({ex})"
+        if bool(got) is not want or isinstance(got, tuple):
+            return False, f"{desc}: matcher gives {got!r}, expected {want}"
+    return True, f"{len(cases)} stand-in messages evaluated"
 
 def r5(ctx):
     R = "C08.R5"
